@@ -1,6 +1,75 @@
-/-! Driver commands of the `Files` cluster.  `handle` returns `none` for commands that are not its own. -/
+import TbotVerif.Spec.Files
+/-! Driver commands of the `Files` cluster.
+    case:  `<bash|ash> <chunk> <t|b>/<data>/<path>`   (data: UTF-8 of the text / the bytes; hex)
+    obs:   `<ret>;<file|!>;<back>;<txW>;<txR>;<piecesW>;<piecesR>` with
+           ret/back = `n:<k>` | `t:<text>` | `b:<bytes>` | `err:<tag>` | `skip`
+    `files <case…> || <obs>` replays the fragmentation found in the observation on the model;
+    `files <case…>` alone delivers every answer in one piece. -/
 namespace Driver.Files
+open _root_.Files
 
-def handle (_toks : List String) : Option String := none
+def splitAt2 (toks : List String) (sep : String) : List String × List String :=
+  (toks.takeWhile (· != sep), (toks.dropWhile (· != sep)).drop 1)
+
+def caseOf (toks : List String) : Option Files.Case :=
+  match toks with
+  | [kind, chunk, d] => do
+    let ash ← if kind == "ash" then some true else if kind == "bash" then some false else none
+    match d.splitOn "/" with
+    | [k, data, path] =>
+      let data ← if k == "t" then (Wire.charsOf data).map Data.text
+                 else if k == "b" then (Bytes.ofHex data).map Data.bytes else none
+      pure { ash := ash, chunk := ← chunk.toNat?, data := data, path := ← Bytes.ofHex path }
+    | _ => none
+  | _ => none
+
+def valStr : Val → String
+  | .n k => s!"n:{k}"
+  | .text t => s!"t:{Wire.chars t}"
+  | .bytes d => s!"b:{Bytes.toHex d}"
+  | .err t => s!"err:{t}"
+  | .skip => "skip"
+
+def valOf (s : String) : Option Val :=
+  match s.splitOn ":" with
+  | ["n", k] => k.toNat?.map .n
+  | ["t", t] => (Wire.charsOf t).map .text
+  | ["b", d] => (Bytes.ofHex d).map .bytes
+  | "err" :: rest => some (.err (":".intercalate rest))
+  | ["skip"] => some .skip
+  | _ => none
+
+def obsStr (o : Files.Obs) : String :=
+  ";".intercalate [valStr o.ret, (match o.file with | none => "!" | some f => Bytes.toHex f), valStr o.back,
+    Bytes.toHex o.txW, Bytes.toHex o.txR, Wire.sepBy "," (o.piecesW.map toString), Wire.sepBy "," (o.piecesR.map toString)]
+
+def obsOf (s : String) : Option Files.Obs :=
+  match s.splitOn ";" with
+  | [r, f, b, tw, tr, pw, pr] => do
+    let f ← if f == "!" then some none else (Bytes.ofHex f).map some
+    pure { ret := ← valOf r, file := f, back := ← valOf b, txW := ← Bytes.ofHex tw, txR := ← Bytes.ofHex tr,
+           piecesW := ← Wire.listOf String.toNat? pw, piecesR := ← Wire.listOf String.toNat? pr }
+  | _ => none
+
+def handle (toks : List String) : Option String :=
+  match toks with
+  | "files" :: rest =>
+    let (ct, ot) := splitAt2 rest "||"
+    some (match caseOf ct, ot with
+    | some c, [] => obsStr (run b64 c [] [])
+    | some c, [o] =>
+      match obsOf o with
+      | some o => obsStr (run b64 c o.piecesW o.piecesR)
+      | none => "bad-op"
+    | _, _ => "bad-op")
+  | "spec" :: "C11" :: rest =>
+    let (ct, ot) := splitAt2 rest "||"
+    some (match caseOf ct, ot with
+    | some c, [o] =>
+      match obsOf o with
+      | some o => if Spec.C11 c o then "1" else "0"
+      | none => "bad-op"
+    | _, _ => "bad-op")
+  | _ => none
 
 end Driver.Files
